@@ -38,10 +38,7 @@ import (
 	"verif/engine/crashdb"
 )
 
-const (
-	chainID    = "c33-chain"
-	lastHeight = 4
-)
+const lastHeight = 4
 
 var (
 	genesisTime = time.Date(2024, 1, 2, 3, 4, 5, 0, time.UTC)
@@ -55,6 +52,15 @@ type snap struct {
 	bs, st, app []crashdb.Unit // physical write logs of the three DBs (the DB content is their replay)
 	wal         []byte         // bytes of the WAL head file on disk (nil: file absent)
 	pv          []byte         // privval sign-state file (nil: absent)
+
+	// not persistent state, but history the oracle needs:
+	walIdx []walMsg // consensus messages contained in wal (end offset, height)
+	sigs   []sigRec // every signature that left the signer in the lives before
+}
+
+type walMsg struct {
+	End int64
+	H   int64
 }
 
 func (s snap) key() string {
@@ -75,6 +81,7 @@ type unitRec struct {
 	WalDisk     int64 // length of the WAL head file on disk
 	Pv          int   // index into pvStates
 	CsH         int64 // block-store height when the unit completed (orientation only)
+	MsgH        int64 // wal units: height of the consensus message written (0: none)
 }
 
 type sigRec struct {
@@ -154,13 +161,16 @@ func (r *recorder) hook(comp string) func(u *crashdb.Unit) {
 	}
 }
 
-func (r *recorder) walUnit(desc string) {
+func (r *recorder) walUnit(desc string, msgH int64) {
 	if fi, err := os.Stat(r.walPath); err == nil {
 		r.mu.Lock()
 		r.walDisk = fi.Size()
 		r.mu.Unlock()
 	}
 	r.add("wal", desc, 0, 0, 0)
+	r.mu.Lock()
+	r.units[len(r.units)-1].MsgH = msgH
+	r.mu.Unlock()
 }
 
 // pvAfter registers a unit if the sign-state file changed.
@@ -195,25 +205,25 @@ func (w *recWAL) Write(m walm.WALMessage) error {
 	if w.flushEvery {
 		w.next.FlushAndSync()
 	}
-	w.rec.walUnit("write " + cns.VerifDescribe(m))
+	w.rec.walUnit("write "+cns.VerifDescribe(m), cns.VerifMsgHeight(m))
 	return err
 }
 
 func (w *recWAL) WriteSync(m walm.WALMessage) error {
 	err := w.next.WriteSync(m)
-	w.rec.walUnit("writesync " + cns.VerifDescribe(m))
+	w.rec.walUnit("writesync "+cns.VerifDescribe(m), cns.VerifMsgHeight(m))
 	return err
 }
 
 func (w *recWAL) WriteMetaSync(m walm.MetaMessage) error {
 	err := w.next.WriteMetaSync(m)
-	w.rec.walUnit(fmt.Sprintf("metasync #%d", m.Height))
+	w.rec.walUnit(fmt.Sprintf("metasync #%d", m.Height), 0)
 	return err
 }
 
 func (w *recWAL) FlushAndSync() error {
 	err := w.next.FlushAndSync()
-	w.rec.walUnit("flushsync")
+	w.rec.walUnit("flushsync", 0)
 	return err
 }
 
@@ -267,16 +277,15 @@ func (r *recorder) sig(s sigRec) {
 // harness mempool: the clients' transactions. A tx stays available until a committed block contains it
 // (a restarted node gets the not-yet-committed ones again, as from clients/peers).
 
-var txPlan = [][]string{{"k1=v1"}, {"k2=v2", "k3=v3"}, {"k4=v4"}, {"k5=v5"}}
-
 type hmempool struct {
 	mock.Mempool
 	mu        sync.Mutex
+	plan      [][]string
 	committed map[string]bool
 }
 
-func newMempool(bs *store.BlockStore) *hmempool {
-	m := &hmempool{committed: map[string]bool{}}
+func newMempool(bs *store.BlockStore, plan [][]string) *hmempool {
+	m := &hmempool{committed: map[string]bool{}, plan: plan}
 	for h := int64(1); h <= bs.Height(); h++ {
 		if b := bs.LoadBlock(h); b != nil {
 			for _, tx := range b.Txs {
@@ -290,7 +299,7 @@ func newMempool(bs *store.BlockStore) *hmempool {
 func (m *hmempool) ReapMaxBytesMaxGas(_, _ int64) types.Txs {
 	m.mu.Lock()
 	defer m.mu.Unlock()
-	for _, g := range txPlan {
+	for _, g := range m.plan {
 		var out types.Txs
 		for _, t := range g {
 			if !m.committed[t] {
@@ -365,9 +374,11 @@ type appInst struct {
 
 type appKind struct {
 	name     string
+	chainID  string
 	newApp   func(db *crashdb.DB, lg *slog.Logger) (*appInst, error)
 	appState func() any // genesis app state
-	txs      func() [][][]byte
+	params   func() abci.ConsensusParams
+	plan     func() ([][]string, error) // the clients' transactions, grouped per intended block
 }
 
 // ---------------------------------------------------------------------------------------------
@@ -379,8 +390,6 @@ type nodeOpts struct {
 	epoch      int
 	verbose    bool
 	kind       *appKind
-	// stopAfter > 0: freeze the node (simulated kill) once this many units have completed in THIS life
-	stopAfter int
 }
 
 type life struct {
@@ -420,7 +429,7 @@ func writeKeyFile(path string) error {
 func genesisDoc(kind *appKind) *types.GenesisDoc {
 	g := &types.GenesisDoc{
 		GenesisTime:     genesisTime,
-		ChainID:         chainID,
+		ChainID:         kind.chainID,
 		ConsensusParams: types.DefaultConsensusParams(),
 		Validators: []types.GenesisValidator{{
 			Address: valKey.PubKey().Address(), PubKey: valKey.PubKey(), Power: 10, Name: "v0",
@@ -428,6 +437,9 @@ func genesisDoc(kind *appKind) *types.GenesisDoc {
 	}
 	if kind.appState != nil {
 		g.AppState = kind.appState()
+	}
+	if kind.params != nil {
+		g.ConsensusParams = kind.params()
 	}
 	return g
 }
@@ -566,7 +578,12 @@ func runLife(from snap, o nodeOpts) (lf *life) {
 	lf.post = [3]int64{blockStore.Height(), state.LastBlockHeight, ah}
 	lf.postHash = [2]string{hex.EncodeToString(state.AppHash), hex.EncodeToString(ahash)}
 
-	mp := newMempool(blockStore)
+	plan, err := o.kind.plan()
+	if err != nil {
+		lf.outcome = "boot-error: tx plan: " + err.Error()
+		return
+	}
+	mp := newMempool(blockStore, plan)
 	blockExec := sm.NewBlockExecutor(rec.st, lg, proxy_.Consensus(), mp)
 	cfg := cnscfg.DefaultConsensusConfig()
 	cfg.RootDir = o.dir
@@ -590,7 +607,7 @@ func runLife(from snap, o nodeOpts) (lf *life) {
 	}
 	wal = bw
 	rw := &recWAL{next: bw, rec: rec, flushEvery: o.flushEvery}
-	rec.walUnit("wal opened")
+	rec.walUnit("wal opened", 0)
 	cs.VerifSetWAL(rw)
 
 	if err := cs.Start(); err != nil {
